@@ -334,6 +334,16 @@ func rootsAtLocalSlice(v ssa.Value) bool {
 // (non-empty) interface-valued arguments. It cannot name unexported fields.
 func (g *Global) externalCallMods(caller *ssa.Function, cc *ssa.CallCommon) *ModSet {
 	ms := &ModSet{comps: map[string]bool{}}
+	// reflection writes memory that is not visible in the argument types: reflect.Value.Set*
+	// (and friends) may write anything reachable from the Value
+	if f, ok := cc.Value.(*ssa.Function); ok && f.Pkg != nil && f.Pkg.Pkg.Path() == "reflect" && f.Signature.Recv() != nil {
+		n := f.Name()
+		if strings.HasPrefix(n, "Set") || n == "Clear" || n == "Grow" || n == "Send" || n == "Call" || n == "CallSlice" {
+			ms.all = true
+			ms.why = "reflect.Value." + n + " in " + caller.String()
+			return ms
+		}
+	}
 	args := cc.Args
 	for _, a := range args {
 		t := a.Type()
